@@ -24,6 +24,8 @@ def compile_pair(stmts, explicit_ctx):
     env = {}
     Br = H.branching
     env["if_then_else"] = Br.if_then_else
+    from pysnark.array import Array
+    env["Array"] = Array
     for nm in ("BranchingValues", "_if", "_elif", "_else", "_endif", "_while", "_endwhile", "_breakif", "_range", "_endfor"):
         env[nm] = getattr(Br, nm)
     exec(compile(src_o, "<oblivious>", "exec"), env)
@@ -42,6 +44,14 @@ def _num(w):
     if isinstance(w, H.rt.LinComb):
         return float(w.value)
     return float(w)
+
+
+def _deep(x):
+    return tuple(_deep(y) for y in x) if isinstance(x, (list, tuple)) else x
+
+
+def _want(w):
+    return (w[0], w[1], tuple(w[2]), w[3], float(w[4]), _deep(w[5]), tuple(w[6]))
 
 
 class TwinSkip(Exception):
@@ -122,10 +132,10 @@ def run_one(fo, fn, vec, p):
         return {"twin_error": repr(ex)}
     out = {"want": want}
     try:
-        rx, ry, ctx, rl, rk, rw = fo(X, Y, Bv, N, Fv)
-        out["got"] = (H.plain(rx), H.plain(ry), tuple(H.plain(rl)), H.plain(rk), _num(rw))
+        rx, ry, ctx, rl, rk, rw, rm, ra = fo(X, Y, Bv, N, Fv)
+        out["got"] = (H.plain(rx), H.plain(ry), tuple(H.plain(rl)), H.plain(rk), _num(rw), _deep(H.plain(rm)), tuple(H.plain(ra)))
         out["stack"] = len(ctx.stack)
-        out["mism"] = H.value_wire_mismatches([rx, ry, rl, rk, rw])
+        out["mism"] = H.value_wire_mismatches([rx, ry, rl, rk, rw, rm, ra])
     except Exception as ex:  # noqa: BLE001
         out["exc"] = "%s: %s" % (type(ex).__name__, str(ex)[:100])
         out["exc_type"] = type(ex).__name__
@@ -182,9 +192,9 @@ def _task(t):
                            {"exc": r["exc_type"]})
                     continue
                 outcomes.add(r["got"])
-                r["want"] = (r["want"][0], r["want"][1], tuple(r["want"][2]), r["want"][3], float(r["want"][4]))
+                r["want"] = _want(r["want"])
                 if tuple(r["got"]) != tuple(r["want"]):
-                    report("wrong-result", vec, "oblivious program ends with (x,y,l,k,w)=%s, native twin with %s" % (r["got"], r["want"]))
+                    report("wrong-result", vec, "oblivious program ends with (x,y,l,k,w,m,a)=%s, native twin with %s" % (r["got"], r["want"]))
                 if r["unsat"]:
                     report("unsat", vec, "constraints %s not satisfied by the recorded witness" % r["unsat"][:3])
                 if r["mism"]:
@@ -256,7 +266,7 @@ def run(ctx):
     ctx.cov["distinct_outcomes"] = nout
     ctx.cov["traces_validated_against_impl"] = agg["executions"]
     ctx.cov["exhaustive"] = True
-    ctx.cov["rule"] = ("variables: two integer secrets, a list of two, one starting as the plain int 5 and one as the plain float 1.5 (assigned integer / fixed-point secrets inside blocks); program = statement list from the grammar assign | if/elif/else | while+breakif | for _range(secret "
+    ctx.cov["rule"] = ("variables: two integer secrets, a list of two, a nested list and an Array object (modified in place), one starting as the plain int 5 and one as the plain float 1.5 (assigned integer / fixed-point secrets inside blocks); program = statement list from the grammar assign | if/elif/else | while+breakif | for _range(secret "
                        "stop, public max) (conditions x<y, x==1, b, ~b, b&(x<=y); loop maxima 2,3; nesting 1 quick / 2 "
                        "thorough), emitted with explicit ctx= and with local-variable context lookup; inputs = all "
                        "(x,y) in {0..3}^2 x b in {0,1} x stop in 0..max; transitions = constraints emitted; states = "
@@ -273,7 +283,7 @@ def replay(case):
     stmts = _fix(stmts)
     fo, fn, so, sn = compile_pair(stmts, case["explicit"])
     r = run_one(fo, fn, tuple(case["vec"]), case["p"])
-    r["want"] = (r["want"][0], r["want"][1], tuple(r["want"][2]), r["want"][3], float(r["want"][4]))
+    r["want"] = _want(r["want"])
     bad = ("exc" in r) or tuple(r.get("got", ())) != tuple(r["want"]) or r["unsat"]
     r.pop("trace", None)
     return {"oblivious": so, "native": sn, "inputs": case["vec"], "result": r, "violations": [r] if bad else []}
